@@ -471,20 +471,30 @@ func (t *ZeroAllocTokenizer) TokenizeHtmlPreserving() ([]Token, error) {
 		var endTag string
 		var endTagType int
 		var endTagLength int
+		knownEnd := -1 // where the end tag starts, relative to t.position, when already worked out
 
 		if tagType == TOKEN_VAR_START || tagType == TOKEN_VAR_START_TRIM {
 			// Look for "}}" or "-}}"
 			endPos1 := strings.Index(t.source[t.position:], "}}")
 			endPos2 := strings.Index(t.source[t.position:], "-}}")
+			if end := printTagEnd(t.source, t.position); end >= 0 {
+				// (the one that does not close a hash literal)
+				endPos1, endPos2 = end-t.position, -1
+				if end > t.position && t.source[end-1] == '-' {
+					endPos2 = endPos1 - 1
+				}
+			}
 
 			if endPos1 != -1 && (endPos2 == -1 || endPos1 < endPos2) {
 				endTag = "}}"
 				endTagType = TOKEN_VAR_END
 				endTagLength = 2
+				knownEnd = endPos1
 			} else if endPos2 != -1 {
 				endTag = "-}}"
 				endTagType = TOKEN_VAR_END_TRIM
 				endTagLength = 3
+				knownEnd = endPos2
 			} else {
 				return nil, fmt.Errorf("unclosed variable tag at line %d", t.line)
 			}
@@ -517,6 +527,9 @@ func (t *ZeroAllocTokenizer) TokenizeHtmlPreserving() ([]Token, error) {
 
 		// Find position of the end tag
 		endPos := strings.Index(t.source[t.position:], endTag)
+		if knownEnd >= 0 {
+			endPos = knownEnd
+		}
 		if endPos == -1 {
 			return nil, fmt.Errorf("unclosed tag at line %d", t.line)
 		}
@@ -1116,6 +1129,28 @@ func FindNextTag(source string, startPos int) TagLocation {
 	return TagLocation{TAG_NONE, -1, 0}
 }
 
+// printTagEnd returns the position of the "}}" that ends the print tag whose content
+// starts at from, or -1. Braces opened inside the tag are closed first, so that the end
+// of a hash literal is not taken for the end of the tag: {{ {'a': {'b': 2}} }} and
+// {{ {'a': 1}}} end where {{ {'a': 1}-}} always did. When the braces of the tag do not
+// pair up the caller falls back to the first "}}".
+func printTagEnd(source string, from int) int {
+	depth := 0
+	for i := from; i < len(source); i++ {
+		switch source[i] {
+		case '{':
+			depth++
+		case '}':
+			if depth > 0 {
+				depth--
+			} else if i+1 < len(source) && source[i+1] == '}' {
+				return i
+			}
+		}
+	}
+	return -1
+}
+
 // FindTagEnd finds the end of a tag based on the type
 func FindTagEnd(source string, startPos int, tagType TagType) int {
 	if startPos >= len(source) {
@@ -1124,7 +1159,10 @@ func FindTagEnd(source string, startPos int, tagType TagType) int {
 
 	switch tagType {
 	case TAG_VAR, TAG_VAR_TRIM:
-		// Find "}}" sequence
+		// Find "}}" sequence (not the braces that close a hash literal)
+		if end := printTagEnd(source, startPos); end >= 0 {
+			return end
+		}
 		for i := startPos; i < len(source)-1; i++ {
 			if source[i] == '}' && source[i+1] == '}' {
 				return i
